@@ -29,6 +29,8 @@ CHDIR_ALLOWED = {
 # default_env builds the *initial* mapping from os.getcwd() before a session (and any cd) exists
 PWD_WRITERS = {(DS, "_change_working_directory"), (BS, "BaseShell._fix_cwd"), ("xonsh/environ.py", "default_env")}
 STACK_MUT = {"pop", "insert", "append", "extend", "remove", "clear", "reverse", "sort"}
+# never expanded in the helper-transparent view of the directory commands
+FLAT_SKIP = ("_change_working_directory", "_unc_map_temp_drive", "_unc_unmap_temp_drive")
 
 
 def _stack_mutations(fn, names=("DIRSTACK",)):
@@ -130,6 +132,7 @@ class _Walk:
         self.untracked = {x for n in ast.walk(fn) if isinstance(n, (ast.Global, ast.Nonlocal)) for x in n.names}
         self._stored = {}
         self._runs = {}
+        self._facts = {}
 
     def stored(self, n):
         """names (re)bound by the part of the statement that this CFG node stands for"""
@@ -225,6 +228,23 @@ class _Walk:
                 path.append(state[0])
             state = seen[state]
         return list(reversed(path))
+
+    def facts(self, node):
+        """atomic facts that hold whenever ``node`` executes: like cfg.facts_at, but a branch edge counts as a guard
+        when no *value-sensitive* walk reaches the node without it - so a refusal that travels through a status local
+        or a helper's result (`bad = 1 if n < 0 else 0; if bad: return ...`) guards what follows as the plain
+        `if n < 0: return ...` does"""
+        if node in self._facts:
+            return self._facts[node]
+        out = []
+        if any(s[0] is node for s in self.run(tag="all")):
+            for c in self.cfg.nodes:
+                if c.kind in ("if", "while") and c is not node:
+                    for label, pol in (("true", True), ("false", False)):
+                        if any(l == label for _, l in c.succ) and not any(s[0] is node for s in self.run(skip_edge=lambda n, l, c=c, label=label: n is c and l == label)):
+                            out += implied_facts(c.ast.test, pol)
+        self._facts[node] = out
+        return out
 
     def guarded(self, node, texts, preds):
         """every walk from the entry to ``node`` takes an edge on which `pred(<one of texts>)` is known to be true
@@ -415,23 +435,95 @@ def check(ctx):
     # ------------------------------------------------------------------ R2 / R3 / R4
     silent = bool(hd) and all((n.ast.value is None or (isinstance(n.ast.value, ast.Constant) and n.ast.value.value is None)) for n in ccfg.nodes if n.kind == "stmt" and isinstance(n.ast, ast.Return))
     for q in ("cd", "pushd_fn", "popd_fn", "dirs_fn"):
-        fn = ds.func(q)
+        # the helper-transparent view: where a phase of the command lives (inline, or in a helper whose result the
+        # command returns / unpacks) does not change what it does.  Left as calls: the silent-failure callee itself
+        # (R3 is about the call) and the Windows UNC drive mapping (not decided, see not_decided).
+        fn = flat(ctx, ds.func(q), 2, skip=FLAT_SKIP)
         st = f"{DS}:{q}"
         cfg = CFG(fn)
-        muts = _stack_mutations(fn)
+        defs = df.all_defs(fn)
+        walk = _Walk(cfg, fn)
+        muts = _stack_mutations(fn, {"DIRSTACK"} | names_bound_to_text(fn, "DIRSTACK", defs))
         moves = [c for c in calls_in(fn) if call_name(c) in ("_change_working_directory", "pushd", "popd", "pushd_fn", "popd_fn")]
-        errs = [n for n in cfg.nodes if n.kind == "stmt" and _is_error_return(n.ast)]
+        mut_nodes = [nd for x in muts + moves for nd in cfg.nodes_of(stmt_of(x))]
+        states = walk.run(marks=mut_nodes, tag="marked")
+
+        def err_state(s_):
+            n_ = s_[0]
+            return n_.kind == "stmt" and isinstance(n_.ast, ast.Return) and n_.ast.value is not None and _is_error_value(_aval(n_.ast.value, dict(s_[1])))
+
+        err_states = [s_ for s_ in states if err_state(s_)]
+        errs = {s_[0] for s_ in err_states}
         if q != "dirs_fn" and not errs:
             raise AnalysisError(f"{st}: no error return recognised")
-        starts = []
-        for x in muts + moves:
-            for nd in cfg.nodes_of(stmt_of(x)):
-                starts += [m_ for m_, l in nd.succ if l != "exc"]
-        seen = cfg.reach(starts, include_starts=True)
-        hit = [e for e in errs if e in seen]
-        ctx.ob("R2", st, f"no error return is reachable once the stack was mutated / the directory changed ({len(muts)} mutation(s), {len(moves)} move(s), {len(errs)} error return(s))", not hit, key=f"{q}|error-after-mutation", where=loc(hit[0].ast) if hit else loc(fn), path=cfg.fmt_path(cfg.path_to(seen, hit[0])) if hit else None)
+        hit = sorted((s_ for s_ in err_states if s_[2]), key=lambda s_: s_[0].line)
+        ctx.ob("R2", st, f"no error return is reachable once the stack was mutated / the directory changed ({len(muts)} mutation(s), {len(moves)} move(s), {len(errs)} error return(s))", not hit, key=f"{q}|error-after-mutation", where=loc(hit[0][0].ast) if hit else loc(fn), path=cfg.fmt_path(walk.witness(states, hit[0])) if hit else None)
         # R3
-        defs = df.all_defs(fn)
+        def holders(e):
+            """the locals that hold exactly the value of ``e`` because a helper call bound it to a parameter"""
+            out = {unparse(e)}
+            for _ in range(4):
+                for n_, ds_ in defs.items():
+                    if n_ not in out and ds_ and all(d.kind == "assign" and getattr(d.stmt, "_xv_bind", False) and isinstance(d.value, ast.Name) and d.value.id in out for d in ds_):
+                        out.add(n_)
+            return out
+
+        def element_links(v, i, stmt, depth=4):
+            """[(element expr, stmt)] for element ``i`` of the tuple(s) that ``v`` can be, None if that is not known"""
+            if isinstance(v, (ast.Tuple, ast.List)):
+                return [(v.elts[i], stmt)] if i < len(v.elts) and not any(isinstance(x, ast.Starred) for x in v.elts) else None
+            if isinstance(v, ast.Name) and depth > 0 and defs.get(v.id):
+                out = []
+                for d in defs[v.id]:
+                    if d.kind != "assign" or d.value is None:
+                        return None
+                    if isinstance(d.value, ast.Constant) and d.value.value is None:
+                        continue  # `r = None` before the branches that bind the tuple: cannot be unpacked
+                    sub = element_links(d.value, i, d.stmt, depth - 1)
+                    if sub is None:
+                        return None
+                    out += sub
+                return out
+            return None
+
+        def links(name):
+            """[(bound expr or None, stmt)] for every non-parameter definition of a local; an unpacking of a tuple built
+            elsewhere in the (flattened) function - a helper's `return a, b, c` - is resolved to the element"""
+            out = []
+            for d in defs.get(name, []):
+                if d.kind == "param" or d.value is None:
+                    continue
+                if d.kind == "unpack":
+                    tg = [t for t in (d.stmt.targets if isinstance(d.stmt, ast.Assign) else []) if isinstance(t, (ast.Tuple, ast.List)) and d.index < len(t.elts) and t.elts[d.index] is d.target]
+                    el = element_links(d.value, d.index, d.stmt) if tg else None
+                    out += el if el is not None else [(None, d.stmt)]
+                elif d.kind in ("assign", "walrus"):
+                    out.append((d.value, d.stmt))
+                else:
+                    out.append((None, d.stmt))
+            return out
+
+        def unvalidated(name, seen):
+            """definitions from which an unchecked path can arrive in local ``name``"""
+            if name in seen:
+                return []
+            seen.add(name)
+            out = []
+            for v, stmt in links(name):
+                if v is not None and isinstance(v, ast.Constant) and v.value is None:
+                    continue
+                if isinstance(v, ast.Call) and (call_name(v) or "").startswith("_unc_map_temp_drive"):
+                    continue
+                dn = cfg.nodes_of(stmt)
+                if v is not None and dn and walk.guarded(dn[0], holders(v), ("os.path.isdir",)):
+                    continue
+                ds_ = defs.get(v.id, []) if isinstance(v, ast.Name) else []
+                if ds_ and all(d.kind in ("assign", "unpack") for d in ds_):
+                    out += unvalidated(v.id, seen)  # a plain local: what it holds was decided where it was bound
+                    continue
+                out.append(short(stmt, 50))
+            return out
+
         for c in [c for c in moves if call_name(c) == "_change_working_directory"]:
             cn = node_in(cfg, stmt_of(c))[0]
             prior = [m for m in muts + [x for x in moves if x is not c] if any(cn in cfg.reach([nd]) for nd in cfg.nodes_of(stmt_of(m)))]
@@ -440,24 +532,12 @@ def check(ctx):
                 continue
             checked = not isinstance(stmt_of(c), ast.Expr)
             arg = c.args[0] if c.args else None
-            # validated: every definition of the target is either guarded by isdir/exists on it, or the call site is
-            facts = facts_at(cfg, cn)
-            val_here = any(pol and isinstance(e, ast.Call) and (call_name(e) or "") in ("os.path.isdir", "os.path.exists") and e.args and unparse(e.args[0]) == unparse(arg) for e, pol in facts) or any((not pol) and isinstance(e, ast.Call) and (call_name(e) or "") in ("os.path.isdir", "os.path.exists") and e.args and unparse(e.args[0]) == unparse(arg) for e, pol in [(e.operand, not pol) if isinstance(e, ast.UnaryOp) else (e, pol) for e, pol in facts])
+            # validated: the call site is reached only through a successful isdir/exists test of the target, or every
+            # definition the target's value can come from is reached only through a successful isdir test of it
+            val_here = arg is not None and walk.guarded(cn, holders(arg), ("os.path.isdir", "os.path.exists"))
             unval = []
             if isinstance(arg, ast.Name) and not val_here:
-                for d in defs.get(arg.id, []):
-                    if d.kind == "param" or d.value is None:
-                        continue
-                    if isinstance(d.value, ast.Constant) and d.value.value is None:
-                        continue
-                    dn = cfg.nodes_of(d.stmt)
-                    f2 = facts_at(cfg, dn[0]) if dn else []
-                    src = unparse(d.value)
-                    v = any(pol and isinstance(e, ast.Call) and (call_name(e) or "") == "os.path.isdir" and e.args and unparse(e.args[0]) == src for e, pol in f2)
-                    if isinstance(d.value, ast.Call) and (call_name(d.value) or "").startswith("_unc_map_temp_drive"):
-                        continue
-                    if not v:
-                        unval.append(short(d.stmt, 50))
+                unval = unvalidated(arg.id, set())
             ok = checked or val_here or not unval
             ctx.ob("R3", st, f"`{short(c)}` (can fail silently: its OSError handler prints and returns nothing) follows a stack mutation only with a validated target or a checked result", ok, key=f"{q}|silent-failure-after-mutation", where=loc(c), detail=f"unvalidated sources of the target: {unval}" if unval else None)
         # R5 computed indexes
@@ -467,7 +547,7 @@ def check(ctx):
             stn = cfg.nodes_of(stmt_of(node))
             facts = list(_expr_facts(node))
             if stn:
-                facts += facts_at(cfg, stn[0])
+                facts += walk.facts(stn[0])
             # resolve local names the index is computed from; a name with several definitions gives
             # one case per definition (facts at the definition hold at the use if it dominates... each
             # definition is taken with the guards under which it executes)
@@ -488,7 +568,7 @@ def check(ctx):
                             res = []
                             for d_ in ds_:
                                 dn = cfg.nodes_of(d_.stmt)
-                                f_ = facts_at(cfg, dn[0]) if dn else []
+                                f_ = walk.facts(dn[0]) if dn else []
                                 sm = dict(submap)
                                 sm[x.id] = d_.value
                                 sub = _dt.subst(e_, {x.id: d_.value})
